@@ -22,41 +22,181 @@
 #include "cpu_support.h"
 #include "os_support.h"
 #include "arch.h"
+#include "mdct.h"
 #include "celt.h"
+#include "pitch.h"
+#include "bands.h"
+#include "modes.h"
+#include "entcode.h"
+#include "quant_bands.h"
+#include "rate.h"
+#include "stack_alloc.h"
+#include "mathops.h"
+#include "float_cast.h"
+#include "celt_lpc.h"
+#include "vq.h"
 #include "entenc.h"
 
-/* ------------------------------------------------------------------ recording wrappers */
-typedef struct { int kind; const void *x, *y; int T0, T1, n, ovl; float g0, g1; int ts0, ts1; long bytes; } rcall;
-#define MAXRC 64
+/* ------------------------------------------------------------------ recording wrappers
+   Every routine of another file that celt_decoder.c calls on its audio buffers, and the OPUS_MOVE / OPUS_COPY / ALLOC
+   macros, are routed through recorders (raw pointers and integer arguments; pointers are resolved to
+   <array>+<element offset> afterwards).  All headers celt_decoder.c includes are included above, so that only the text
+   of celt_decoder.c itself sees the replaced names. */
+typedef struct { int kind; const void *p[4]; int v[6]; float g0, g1; long bytes; char a[4][28]; int aud; } rcall;
+#define MAXRC 400
 static struct { int on; rcall c[MAXRC]; int n; int overflow; } R;
+typedef struct { const char *name; const void *p; long bytes; } ralloc;
+static struct { ralloc a[64]; int n; } RA;
 
+static void rres(rcall *c);     /* resolve the pointers to <array>+<offset> at the time of the call */
+static rcall *rnew(int kind) { rcall *c; if (!R.on) return NULL; if (R.n >= MAXRC) { R.overflow = 1; return NULL; } c = &R.c[R.n++]; memset(c, 0, sizeof *c); c->kind = kind; return c; }
+static void verif_alloc(const char *name, const void *p, long bytes)
+{
+   int i, j;
+   if (!R.on) return;
+   for (i = j = 0; i < RA.n; i++) {                      /* drop entries the new block overlaps (stack reuse) */
+      const char *a = (const char *)RA.a[i].p, *b = a + RA.a[i].bytes, *c = (const char *)p, *d = c + bytes;
+      if (!(b <= c || d <= a)) continue;
+      RA.a[j++] = RA.a[i];
+   }
+   RA.n = j;
+   if (RA.n == 64) { memmove(RA.a, RA.a + 1, 63 * sizeof(ralloc)); RA.n = 63; }
+   RA.a[RA.n].name = name; RA.a[RA.n].p = p; RA.a[RA.n].bytes = bytes; RA.n++;
+}
+static void verif_move(int kind, const void *dst, const void *src, size_t bytes)
+{ rcall *c = rnew(kind); if (c) { c->p[0] = dst; c->p[1] = src; c->bytes = (long)bytes; rres(c); } }
 static void verif_comb_filter(opus_val32 *y, opus_val32 *x, int T0, int T1, int N, opus_val16 g0, opus_val16 g1,
       int tapset0, int tapset1, const celt_coef *window, int overlap, int arch);
-static void verif_move(const void *dst, const void *src, size_t bytes)
-{
-   if (!R.on) return;
-   if (R.n >= MAXRC) { R.overflow = 1; return; }
-   R.c[R.n].kind = 'M'; R.c[R.n].x = src; R.c[R.n].y = dst; R.c[R.n].bytes = (long)bytes; R.n++;
-}
+static void verif_mdct(const mdct_lookup *l, kiss_fft_scalar *in, kiss_fft_scalar *out, const celt_coef *window, int overlap, int shift, int stride, int arch);
+static void verif_denorm(const CELTMode *m, const celt_norm *X, celt_sig *freq, const celt_glog *bandE, int start, int end, int M, int downsample, int silence);
+static void verif_fir(const opus_val16 *x, const opus_val16 *num, opus_val16 *y, int N, int ord, int arch);
+static void verif_iir(const opus_val32 *x, const opus_val16 *den, opus_val32 *y, int N, int ord, opus_val16 *mem, int arch);
+static int verif_autocorr(const opus_val16 *x, opus_val32 *ac, const celt_coef *window, int overlap, int lag, int n, int arch);
+static void verif_lpc(opus_val16 *lpc, const opus_val32 *ac, int p);
+static void verif_pdown(celt_sig *x[], opus_val16 *x_lp, int len, int C, int arch);
+static void verif_psearch(const opus_val16 *x_lp, opus_val16 *y, int len, int max_pitch, int *pitch, int arch);
+
 #define comb_filter verif_comb_filter
+#define denormalise_bands verif_denorm
+#define celt_iir verif_iir
+#define _celt_autocorr verif_autocorr
+#define _celt_lpc verif_lpc
+#define pitch_downsample verif_pdown
+#define pitch_search verif_psearch
+#undef celt_fir
+#define celt_fir(x, num, y, N, ord, arch) verif_fir(x, num, y, N, ord, arch)
+#undef clt_mdct_backward
+#define clt_mdct_backward(_l, _in, _out, _window, _overlap, _shift, _stride, _arch) verif_mdct(_l, _in, _out, _window, _overlap, _shift, _stride, _arch)
 #undef OPUS_MOVE
-#define OPUS_MOVE(dst, src, n) (verif_move((dst), (src), (n)*sizeof(*(dst))), memmove((dst), (src), (n)*sizeof(*(dst)) + 0*((dst)-(src)) ))
+#define OPUS_MOVE(dst, src, n) (verif_move('M', (dst), (src), (n)*sizeof(*(dst))), memmove((dst), (src), (n)*sizeof(*(dst)) + 0*((dst)-(src)) ))
+#undef OPUS_COPY
+#define OPUS_COPY(dst, src, n) (verif_move('Y', (dst), (src), (n)*sizeof(*(dst))), memcpy((dst), (src), (n)*sizeof(*(dst)) + 0*((dst)-(src)) ))
+#undef ALLOC
+#define ALLOC(var, size, type) type var[size]; verif_alloc(#var, var, (long)(size) * (long)sizeof(type))
 #include "celt/celt_decoder.c"
 #undef comb_filter
+#undef denormalise_bands
+#undef celt_iir
+#undef _celt_autocorr
+#undef _celt_lpc
+#undef pitch_downsample
+#undef pitch_search
+#undef celt_fir
+#define celt_fir(x, num, y, N, ord, arch) ((void)(arch), celt_fir_c(x, num, y, N, ord, arch))
+#undef clt_mdct_backward
+#define clt_mdct_backward(_l, _in, _out, _window, _overlap, _shift, _stride, _arch) clt_mdct_backward_c(_l, _in, _out, _window, _overlap, _shift, _stride, _arch)
+#undef OPUS_COPY
+#define OPUS_COPY(dst, src, n) (memcpy((dst), (src), (n)*sizeof(*(dst)) + 0*((dst)-(src)) ))
+#undef ALLOC
+#define ALLOC(var, size, type) type var[size]
 #include "vcommon.h"
 
 static void verif_comb_filter(opus_val32 *y, opus_val32 *x, int T0, int T1, int N, opus_val16 g0, opus_val16 g1,
       int tapset0, int tapset1, const celt_coef *window, int overlap, int arch)
 {
-   if (R.on) {
-      if (R.n >= MAXRC) R.overflow = 1;
-      else {
-         rcall *c = &R.c[R.n++];
-         c->kind = 'C'; c->x = x; c->y = y; c->T0 = T0; c->T1 = T1; c->n = N; c->ovl = overlap; c->g0 = g0; c->g1 = g1;
-         c->ts0 = tapset0; c->ts1 = tapset1;
+   rcall *c = rnew('C');
+   if (c) { c->p[0] = y; c->p[1] = x; c->v[0] = T0; c->v[1] = T1; c->v[2] = N; c->v[3] = overlap; c->v[4] = tapset0; c->v[5] = tapset1; c->g0 = g0; c->g1 = g1; rres(c); }
+   comb_filter(y, x, T0, T1, N, g0, g1, tapset0, tapset1, window, overlap, arch);
+}
+static void verif_mdct(const mdct_lookup *l, kiss_fft_scalar *in, kiss_fft_scalar *out, const celt_coef *window, int overlap, int shift, int stride, int arch)
+{
+   rcall *c = rnew('D');
+   if (c) { c->p[0] = in; c->p[1] = out; c->v[0] = stride; c->v[1] = (l->n >> shift) >> 1; c->v[2] = overlap; rres(c); }
+   clt_mdct_backward(l, in, out, window, overlap, shift, stride, arch);
+}
+static void verif_denorm(const CELTMode *m, const celt_norm *X, celt_sig *freq, const celt_glog *bandE, int start, int end, int M, int downsample, int silence)
+{
+   rcall *c = rnew('N');
+   if (c) { c->p[0] = X; c->p[1] = freq; c->v[0] = M * m->shortMdctSize; rres(c); }
+   denormalise_bands(m, X, freq, bandE, start, end, M, downsample, silence);
+}
+static void verif_fir(const opus_val16 *x, const opus_val16 *num, opus_val16 *y, int N, int ord, int arch)
+{
+   rcall *c = rnew('F');
+   if (c) { c->p[0] = x; c->p[1] = num; c->p[2] = y; c->v[0] = N; c->v[1] = ord; rres(c); }
+   celt_fir(x, num, y, N, ord, arch);
+}
+static void verif_iir(const opus_val32 *x, const opus_val16 *den, opus_val32 *y, int N, int ord, opus_val16 *mem, int arch)
+{
+   rcall *c = rnew('I');
+   if (c) { c->p[0] = x; c->p[1] = den; c->p[2] = y; c->p[3] = mem; c->v[0] = N; c->v[1] = ord; rres(c); }
+   celt_iir(x, den, y, N, ord, mem, arch);
+}
+static int verif_autocorr(const opus_val16 *x, opus_val32 *ac, const celt_coef *window, int overlap, int lag, int n, int arch)
+{
+   rcall *c = rnew('A');
+   if (c) { c->p[0] = x; c->p[1] = ac; c->v[0] = overlap; c->v[1] = lag; c->v[2] = n; rres(c); }
+   return _celt_autocorr(x, ac, window, overlap, lag, n, arch);
+}
+static void verif_lpc(opus_val16 *lpc, const opus_val32 *ac, int p)
+{
+   rcall *c = rnew('L');
+   if (c) { c->p[0] = lpc; c->p[1] = ac; c->v[0] = p; rres(c); }
+   _celt_lpc(lpc, ac, p);
+}
+static void verif_pdown(celt_sig *x[], opus_val16 *x_lp, int len, int C, int arch)
+{
+   rcall *c = rnew('P');
+   if (c) { c->p[0] = x[0]; c->p[1] = C == 2 ? x[1] : NULL; c->p[2] = x_lp; c->v[0] = len; rres(c); }
+   pitch_downsample(x, x_lp, len, C, arch);
+}
+static void verif_psearch(const opus_val16 *x_lp, opus_val16 *y, int len, int max_pitch, int *pitch, int arch)
+{
+   rcall *c = rnew('S');
+   if (c) { c->p[0] = x_lp; c->p[1] = y; c->v[0] = len; c->v[1] = max_pitch; rres(c); }
+   pitch_search(x_lp, y, len, max_pitch, pitch, arch);
+}
+
+/* pointer -> "<array>+<element offset>" (all element types of these arrays are 4 bytes in this build) */
+static const CELTDecoder *g_st; static const float *g_pcm; static long g_pcmcap;
+static int g_audio;          /* set when the pointer is one of the audio arrays */
+static void rptr(char *o, const void *p)
+{
+   const char *b = (const char *)g_st, *q = (const char *)p; int i;
+   long ML = DECODE_BUFFER_SIZE + g_st->mode->overlap; int ch = g_st->channels;
+   const char *m0 = (const char *)g_st->_decode_mem, *lp = m0 + (long)ch * ML * (long)sizeof(celt_sig);
+   g_audio = 0;
+   if (p == NULL) { strcpy(o, "-"); return; }
+   if (q >= m0 && q < lp) { long e = (long)(q - m0) / (long)sizeof(celt_sig); sprintf(o, "mem%ld+%ld", e / ML, e % ML); g_audio = 1; return; }
+   if (q >= lp && q < lp + (long)ch * CELT_LPC_ORDER * (long)sizeof(opus_val16)) { sprintf(o, "lpc+%ld", (long)(q - lp) / (long)sizeof(opus_val16)); return; }
+   if (q >= b && q < b + celt_decoder_get_size(ch)) { sprintf(o, "state+%ld", (long)(q - b)); return; }
+   if (g_pcm && q >= (const char *)g_pcm && q <= (const char *)(g_pcm + g_pcmcap)) { sprintf(o, "pcm+%ld", (long)((const float *)p - g_pcm)); return; }
+   for (i = RA.n - 1; i >= 0; i--) {
+      const char *a = (const char *)RA.a[i].p;
+      if (q >= a && q <= a + RA.a[i].bytes) {
+         const char *nm = RA.a[i].name;
+         if (!strcmp(nm, "_exc")) nm = "exc"; else if (!strcmp(nm, "fir_tmp")) nm = "fir"; else if (!strcmp(nm, "lp_pitch_buf")) nm = "lpbuf";
+         g_audio = !strcmp(nm, "exc") || !strcmp(nm, "fir") || !strcmp(nm, "freq") || !strcmp(nm, "etmp") || !strcmp(nm, "lpbuf") || !strcmp(nm, "scratch");
+         sprintf(o, "%s+%ld", nm, (long)(q - a) / 4); return;
       }
    }
-   comb_filter(y, x, T0, T1, N, g0, g1, tapset0, tapset1, window, overlap, arch);
+   strcpy(o, "loc+0");
+}
+
+static void rres(rcall *c)
+{
+   int k; c->aud = 0;
+   for (k = 0; k < 4; k++) { rptr(c->a[k], c->p[k]); if (k < 2) c->aud |= g_audio; }
 }
 
 /* ------------------------------------------------------------------ measured extents of the compiled comb_filter */
@@ -180,46 +320,98 @@ static void witness(const char *kind, const char *what, const char *replay)
    if (g_w <= 40) printf("W %s | %s | %s\n", kind, what, replay);
 }
 
-/* one decoded frame: record, print the `pfcalls` pair, evaluate the predicates */
-static void decode_frame(CELTDecoder *st, int ch, const unsigned char *pkt, int len, int N, int LM, float *pcm)
+/* the recorded calls as text (post-filter calls and copies between non-audio arrays left out) */
+static void fmt_calls(char *out, size_t cap, int *B)
+{
+   int i, first = 1; char t[256];
+   out[0] = 0; *B = 1;
+   for (i = 0; i < R.n; i++) {
+      rcall *c = &R.c[i]; int aud = c->aud; char (*a)[28] = c->a;
+      t[0] = 0;
+      switch (c->kind) {
+      case 'C': if (c->p[0] != c->p[1]) sprintf(t, "comb(%s,%s,%d,%d,%d,%d)", a[0], a[1], c->v[0], c->v[1], c->v[2], c->v[3]); break;
+      case 'M': case 'Y': if (aud) sprintf(t, "copy(%s,%s,%ld)", a[0], a[1], c->bytes / 4); break;
+      case 'D': sprintf(t, "mdct(%s,%d,%s,%d,%d)", a[0], c->v[0], a[1], c->v[1], c->v[2]); if (first || *B < c->v[0]) *B = c->v[0]; break;
+      case 'N': sprintf(t, "denorm(%s,%s,%d)", a[0], a[1], c->v[0]); break;
+      case 'F': sprintf(t, "fir(%s,%s,%s,%d,%d)", a[0], a[1], a[2], c->v[0], c->v[1]); break;
+      case 'I': sprintf(t, "iir(%s,%s,%s,%d,%d,%s)", a[0], a[1], a[2], c->v[0], c->v[1], a[3]); break;
+      case 'A': sprintf(t, "acorr(%s,%s,%d,%d,%d)", a[0], a[1], c->v[0], c->v[1], c->v[2]); break;
+      case 'L': sprintf(t, "lpc(%s,%s,%d)", a[0], a[1], c->v[0]); break;
+      case 'P': sprintf(t, "pdown(%s,%s,%s,%d)", a[0], a[1], a[2], c->v[0]); break;
+      case 'S': sprintf(t, "psearch(%s,%s,%d,%d)", a[0], a[1], c->v[0], c->v[1]); break;
+      }
+      if (!t[0]) continue;
+      if (strlen(out) + strlen(t) + 2 >= cap) { R.overflow = 1; return; }
+      if (!first) strcat(out, ";");
+      strcat(out, t); first = 0;
+   }
+}
+
+/* one frame (decoded, or lost when pkt == NULL): record, print the `pfcalls` and `celtcalls` pairs, evaluate the predicates */
+static void decode_frame(CELTDecoder *st, int ch, const unsigned char *pkt, int len, int N, int LM, float *pcm_unused)
 {
    const celt_sig *base = st->_decode_mem; long ML = DECODE_BUFFER_SIZE + st->mode->overlap;
    int pOld = st->postfilter_period_old, pCur = st->postfilter_period, pNew, ret, i, first;
-   char line[160], pf[1024], mv[256], tmp[96]; long k;
+   int ld0 = st->loss_duration, fold0 = st->prefilter_and_fold != 0, lost = pkt == NULL || len <= 1, B = 1;
+   long npcm = (long)(N / st->downsample) * ch, wr = 0; float *pcm = (float *)malloc(sizeof(float) * (size_t)npcm);
+   char line[160], pf[1024], mv[256], tmp[160]; static char calls[16384]; long k;
+   (void)pcm_unused;
+   for (k = 0; k < npcm; k++) memcpy(&pcm[k], &SENT, 4);
    sprintf(line, "decskel pfcalls %d %d %d %d %d", N, LM, ch, pOld, pCur);
-   R.on = 1; R.n = 0; R.overflow = 0;
+   g_st = st; g_pcm = pcm; g_pcmcap = npcm;
+   R.on = 1; R.n = 0; R.overflow = 0; RA.n = 0;
    ret = celt_decode_with_ec(st, pkt, len, pcm, N / st->downsample, NULL, 0);
    R.on = 0;
-   if (ret < 0) return;
+   if (ret < 0) { free(pcm); return; }
+   for (k = 0; k < npcm && fbits(pcm[k]) != SENT; k++) wr++;
+   for (; k < npcm; k++) if (fbits(pcm[k]) != SENT) wr = -1 - k;                 /* a gap in the written samples */
+   /* ---- every call on the audio buffers, and what deemphasis wrote */
+   fmt_calls(calls, sizeof calls, &B);
+   if (!R.overflow) {
+      const char *kind = !lost ? "good" : st->prefilter_and_fold ? "pitch" : "noise"; long scratch = -1;
+      for (i = 0; i < RA.n; i++) if (!strcmp(RA.a[i].name, "scratch")) scratch = RA.a[i].bytes / 4;
+      sprintf(tmp, "decskel celtcalls %s %d %d %d %d %d %d %d %d %d %d %d", kind, N, LM, lost ? ch : st->stream_channels, ch, st->downsample, B,
+              st->last_pitch_index, ld0 == 0, fold0, pOld, pCur);
+      if (!g_quiet) {
+         printf("I %s\n", tmp);
+         if (scratch >= 0) printf("O %s pcm=%ld scratch=%ld\n", calls[0] ? calls : "-", wr, scratch);
+         else printf("O %s pcm=%ld scratch=-\n", calls[0] ? calls : "-", wr);
+      }
+      g_cases++;
+      if (wr != npcm) witness("deemph", "deemphasis did not write exactly frame_size*channels samples", tmp);
+   }
+   free(pcm);
+   if (lost) return;
    pNew = st->postfilter_period;
    sprintf(line + strlen(line), " %d", pNew);
    pf[0] = mv[0] = 0;
    for (first = 1, i = 0; i < R.n; i++) {
       rcall *c = &R.c[i];
-      if (c->kind == 'C' && c->x == c->y) {
-         long off = (const celt_sig *)c->x - base; int cc = (int)(off / ML); long xoff = off % ML;
-         long T = IMAX(IMAX(c->T0, COMBFILTER_MINPERIOD), IMAX(c->T1, COMBFILTER_MINPERIOD));
+      if (c->kind == 'C' && c->p[0] == c->p[1]) {
+         long off = (const celt_sig *)c->p[1] - base; int cc = (int)(off / ML); long xoff = off % ML;
+         int T0 = c->v[0], T1 = c->v[1], n = c->v[2], ovl = c->v[3];
+         long T = IMAX(IMAX(T0, COMBFILTER_MINPERIOD), IMAX(T1, COMBFILTER_MINPERIOD));
          if (off < 0 || cc >= ch) { witness("pfrange", "post-filter runs on memory outside _decode_mem", line); continue; }
-         sprintf(tmp, "%s%d:%ld,%d,%d,%d,%d", first ? "" : ";", cc, xoff, c->T0, c->T1, c->n, c->ovl); first = 0;
+         sprintf(tmp, "%s%d:%ld,%d,%d,%d,%d", first ? "" : ";", cc, xoff, T0, T1, n, ovl); first = 0;
          if (strlen(pf) + strlen(tmp) < sizeof pf - 1) strcat(pf, tmp);
          /* predicate on the implementation: the history the filter reaches back into and the samples it writes belong
             to the same channel's buffer */
-         if (xoff - T - 2 < 0 || xoff + c->n > ML) {
-            sprintf(tmp, "comb_filter at decode_mem[%d]+%ld with T0=%d T1=%d n=%d leaves the channel buffer of %ld", cc, xoff, c->T0, c->T1, c->n, ML);
+         if (xoff - T - 2 < 0 || xoff + n > ML) {
+            sprintf(tmp, "comb_filter at decode_mem[%d]+%ld with T0=%d T1=%d n=%d leaves the channel buffer of %ld", cc, xoff, T0, T1, n, ML);
             witness("pfrange", tmp, line);
          }
-         if (!(c->g0 == 0 && c->g1 == 0) && (c->T0 >= MAX_PERIOD || c->T1 >= MAX_PERIOD)) witness("pfperiod", "post-filter period >= MAX_PERIOD", line);
-         { cargs a; a.T0 = c->T0; a.T1 = c->T1; a.n = c->n; a.ovl = c->ovl; a.g0z = c->g0 == 0; a.g1z = c->g1 == 0;
-           a.gsame = c->g0 == c->g1 && c->ts0 == c->ts1; a.inplace = 1;
+         if (!(c->g0 == 0 && c->g1 == 0) && (T0 >= MAX_PERIOD || T1 >= MAX_PERIOD)) witness("pfperiod", "post-filter period >= MAX_PERIOD", line);
+         { cargs a; a.T0 = T0; a.T1 = T1; a.n = n; a.ovl = ovl; a.g0z = c->g0 == 0; a.g1z = c->g1 == 0;
+           a.gsame = c->g0 == c->g1 && c->v[4] == c->v[5]; a.inplace = 1;
            if ((g_cases & 15) == 0) emit_combext(&a); }
       }
    }
    for (first = 1, i = 0; i < R.n; i++) {
       rcall *c = &R.c[i];
       if (c->kind == 'M') {
-         long so = (const celt_sig *)c->x - base, dof = (const celt_sig *)c->y - base, n = c->bytes / (long)sizeof(celt_sig);
+         long so = (const celt_sig *)c->p[1] - base, dof = (const celt_sig *)c->p[0] - base, n = c->bytes / (long)sizeof(celt_sig);
          int cc = (int)(dof / ML);
-         if (dof < 0 || cc >= ch || (const char *)c->y >= (const char *)(base + ch * ML)) continue;     /* not on _decode_mem (plc_pcm …) */
+         if (dof < 0 || cc >= ch || (const char *)c->p[0] >= (const char *)(base + ch * ML)) continue;     /* not on _decode_mem (plc_pcm …) */
          sprintf(tmp, "%s%d:%ld,%ld,%ld", first ? "" : ";", cc, so - cc * ML, dof - cc * ML, n); first = 0;
          if (strlen(mv) + strlen(tmp) < sizeof mv - 1) strcat(mv, tmp);
          if (so - cc * ML < 0 || so - cc * ML + n > ML || dof - cc * ML + n > ML) witness("mvrange", "decode_mem shift leaves the channel buffer", line);
@@ -233,6 +425,76 @@ static void decode_frame(CELTDecoder *st, int ch, const unsigned char *pkt, int 
    g_cases++;
    k = st->postfilter_period;
    if (!(k == 0 || (k >= COMBFILTER_MINPERIOD && k < MAX_PERIOD))) witness("pfperiod", "postfilter_period outside {0} u [15, 1024) after a decoded frame", line);
+}
+
+/* ------------------------------------------------------------------ callee contracts under the sanitizer
+   The model's extent contract of each routine celt_decoder.c calls (Call.accs) is what the routine may touch.  Here the
+   COMPILED routine is run on heap blocks that contain exactly the contract's elements and nothing else (the sanitizer
+   build reports any access outside them); the contract itself is printed and compared with the model's. */
+typedef struct { int lo, hi; } cext;
+static float *cblock(cext e, vrng *r, float **base)
+{
+   long n = e.hi - e.lo + 1, i; float *b = (float *)malloc(sizeof(float) * (size_t)(n > 0 ? n : 1));
+   for (i = 0; i < n; i++) b[i] = (float)((int)vbelow(r, 2001) - 1000) / 1000.f;
+   *base = b; return b - e.lo;
+}
+static cext cx(int lo, int hi) { cext e; e.lo = lo; e.hi = hi; return e; }
+static void emit_contracts(vrng *r)
+{
+   const CELTMode *m = opus_custom_mode_create(48000, 960, NULL); float *b0, *b1, *b2, *b3; int i, k;
+   if (g_quiet) return;
+   {  static const int NF[][2] = {{380, 24}, {1024, 24}, {200, 24}, {4, 24}};
+      for (i = 0; i < 4; i++) {
+         int n = NF[i][0], ord = NF[i][1]; float *x = cblock(cx(-ord, n - 1), r, &b0), *num = cblock(cx(0, ord - 1), r, &b1), *y = cblock(cx(0, n - 1), r, &b2);
+         printf("I decskel contract fir %d %d\n", n, ord); fflush(stdout);
+         celt_fir(x, num, y, n, ord, g_arch);
+         printf("O %d..%dr,%d..%dr,%d..%dw\n", -ord, n - 1, 0, ord - 1, 0, n - 1); g_cases++;
+         free(b0); free(b1); free(b2);
+      } }
+   {  static const int NI[] = {240, 360, 600, 1080};
+      for (i = 0; i < 4; i++) {
+         int n = NI[i], ord = 24; float *x = cblock(cx(0, n - 1), r, &b0), *den = cblock(cx(0, ord - 1), r, &b1), *mem = cblock(cx(0, ord - 1), r, &b2);
+         for (k = 0; k < ord; k++) den[k] *= 0.02f;
+         printf("I decskel contract iir %d %d\n", n, ord); fflush(stdout);
+         celt_iir(x, den, x, n, ord, mem, g_arch);                    /* in place, as the decoder calls it */
+         printf("O %d..%dr,%d..%dr,%d..%dw,%d..%dr,%d..%dw\n", 0, n - 1, 0, ord - 1, 0, n - 1, 0, ord - 1, 0, ord - 1); g_cases++;
+         free(b0); free(b1); free(b2);
+      } }
+   {  int n = MAX_PERIOD, lag = CELT_LPC_ORDER, ovl = m->overlap; float *x = cblock(cx(0, n - 1), r, &b0), *ac = cblock(cx(0, lag), r, &b1), *lp = cblock(cx(0, lag - 1), r, &b2);
+      printf("I decskel contract acorr %d %d %d\n", ovl, lag, n); fflush(stdout);
+      _celt_autocorr(x, ac, m->window, ovl, lag, n, g_arch);
+      printf("O %d..%dr,%d..%dw\n", 0, n - 1, 0, lag); g_cases++;
+      printf("I decskel contract lpc %d\n", lag); fflush(stdout);
+      _celt_lpc(lp, ac, lag);
+      printf("O %d..%dw,%d..%dr\n", 0, lag - 1, 0, lag); g_cases++;
+      free(b0); free(b1); free(b2); }
+   for (k = 1; k <= 2; k++) {
+      int len = DECODE_BUFFER_SIZE; float *x0 = cblock(cx(0, len - 1), r, &b0), *x1 = cblock(cx(0, len - 1), r, &b1), *xlp = cblock(cx(0, len / 2 - 1), r, &b2);
+      celt_sig *xx[2]; xx[0] = x0; xx[1] = k == 2 ? x1 : NULL;
+      printf("I decskel contract pdown %d %d\n", len, k); fflush(stdout);
+      pitch_downsample(xx, xlp, len, k, g_arch);
+      if (k == 2) printf("O %d..%dr,%d..%dw,%d..%dr,%d..%dr\n", 0, len - 1, 0, len / 2 - 1, 0, len / 2 - 1, 0, len - 1);
+      else printf("O %d..%dr,%d..%dw,%d..%dr\n", 0, len - 1, 0, len / 2 - 1, 0, len / 2 - 1);
+      g_cases++;
+      free(b0); free(b1); free(b2);
+   }
+   {  int len = DECODE_BUFFER_SIZE - PLC_PITCH_LAG_MAX, maxp = PLC_PITCH_LAG_MAX - PLC_PITCH_LAG_MIN, pitch = 0;
+      float *xlp = cblock(cx(0, len / 2 - 1), r, &b0), *y = cblock(cx(0, len / 2 + maxp / 2 - 1), r, &b1);
+      printf("I decskel contract psearch %d %d\n", len, maxp); fflush(stdout);
+      pitch_search(xlp, y, len, maxp, &pitch, g_arch);
+      printf("O %d..%dr,%d..%dr\n", 0, len / 2 - 1, 0, len / 2 + maxp / 2 - 1); g_cases++;
+      if (pitch < 0 || pitch >= maxp) witness("pitchrange", "pitch_search returned a lag outside [0, max_pitch)", "decskel contract psearch");
+      free(b0); free(b1); }
+   {  static const int SH[][2] = {{0, 1}, {1, 1}, {2, 1}, {3, 1}, {3, 2}, {3, 4}, {3, 8}};
+      for (i = 0; i < 7; i++) {
+         int shift = SH[i][0], stride = SH[i][1], n2 = (m->mdct.n >> shift) >> 1, ov = m->overlap, top = ov / 2 + n2 - 1 > ov - 1 ? ov / 2 + n2 - 1 : ov - 1;
+         float *in = cblock(cx(0, stride * (n2 - 1)), r, &b0), *out = cblock(cx(0, top), r, &b1);
+         printf("I decskel contract mdct %d %d %d\n", stride, n2, ov); fflush(stdout);
+         clt_mdct_backward(&m->mdct, in, out, m->window, ov, shift, stride, g_arch);
+         printf("O %d..%dr,%d..%dw,%d..%dr,%d..%dw\n", 0, stride * (n2 - 1), ov / 2, ov / 2 + n2 - 1, 0, ov - 1, 0, ov - 1); g_cases++;
+         free(b0); free(b1);
+      } }
+   (void)b3;
 }
 
 static void emit_size(int ch)
@@ -271,6 +533,7 @@ int main(int argc, char **argv)
    for (i = 0; i < PLEN; i++) PB[i] = (float)(vrange(&r, 1, 2000) * (vchance(&r, 50) ? 1 : -1)) + 0.37f;
    for (i = 0; i < 480; i++) PWIN[i] = 0.6f;
    emit_size(1); emit_size(2);
+   emit_contracts(&r);
    /* systematic sweep of the measured comb_filter extents */
    if (!g_quiet) {
       int a0, a1, ni, fl, ip; static const int NS[] = {120, 360, 840, 240, 120}, OV[] = {120, 120, 120, 120, 0};
@@ -288,16 +551,16 @@ int main(int argc, char **argv)
       int Fs = RATES[vbelow(&r, 5)], ch = 1 + vbelow(&r, 2), steps = 12 + vbelow(&r, 40), s;
       CELTDecoder *st = (CELTDecoder *)malloc((size_t)celt_decoder_get_size(ch));
       if (!st || celt_decoder_init(st, Fs, ch) != OPUS_OK) return 2;
-      if (ch == 2 && vchance(&r, 30)) celt_decoder_ctl(st, CELT_SET_CHANNELS(1));
+      if (vchance(&r, 40)) celt_decoder_ctl(st, CELT_SET_CHANNELS(3 - ch));     /* stream channels != decoder channels, both ways */
       for (s = 0; s < steps; s++) {
          int LM = vbelow(&r, 4), N = 120 << LM, op = vbelow(&r, 100), len;
-         if (op < 8) { celt_decode_with_ec(st, NULL, 0, pcm, N / st->downsample, NULL, 0); continue; }            /* a lost frame in between */
-         if (op < 11) { celt_decoder_ctl(st, OPUS_RESET_STATE); continue; }
-         if (op < 14) { int sb = vchance(&r, 50) ? 17 : 0; celt_decoder_ctl(st, CELT_SET_START_BAND(sb)); }
-         if (op < 17 && ch == 2) celt_decoder_ctl(st, CELT_SET_CHANNELS(1 + (int)vbelow(&r, 2)));
-         if (op < 24) { unsigned char sil[2] = {0xFF, 0xFF}; decode_frame(st, ch, sil, 2, N, LM, pcm); continue; }
+         if (op < 16) { int reps = vchance(&r, 30) ? 1 + (int)vbelow(&r, 14) : 1, q; for (q = 0; q < reps; q++) decode_frame(st, ch, NULL, 0, N, LM, pcm); continue; }   /* lost frames (bursts reach the noise PLC) */
+         if (op < 18) { celt_decoder_ctl(st, OPUS_RESET_STATE); continue; }
+         if (op < 21) { int sb = vchance(&r, 50) ? 17 : 0; celt_decoder_ctl(st, CELT_SET_START_BAND(sb)); }
+         if (op < 24) celt_decoder_ctl(st, CELT_SET_CHANNELS(1 + (int)vbelow(&r, 2)));
+         if (op < 30) { unsigned char sil[2] = {0xFF, 0xFF}; decode_frame(st, ch, sil, 2, N, LM, pcm); continue; }
          len = vchance(&r, 20) ? 2 + (int)vbelow(&r, 12) : 16 + (int)vbelow(&r, 180);
-         if (op < 34) { int j; for (j = 0; j < len; j++) pkt[j] = (unsigned char)vbelow(&r, 256); }
+         if (op < 40) { int j; for (j = 0; j < len; j++) pkt[j] = (unsigned char)vbelow(&r, 256); }
          else {
             int on = !vchance(&r, 15), octave = vbelow(&r, 6), fine, qg = vbelow(&r, 8), ts = vbelow(&r, 3), e = vbelow(&r, 10);
             int span = 16 << octave;
